@@ -11,6 +11,7 @@ import (
 	"os/exec"
 	"path"
 	"path/filepath"
+	"regexp"
 	"strconv"
 	"strings"
 
@@ -138,6 +139,9 @@ type Builder struct {
 
 	SendConsoleMessage func(MsgType, Message string)
 }
+
+// validServiceName: what may be put into the -DSERVICE_NAME define of the shell command line
+var validServiceName = regexp.MustCompile(`^[A-Za-z0-9_.-]+$`)
 
 func NewBuilder(config BuilderConfig) *Builder {
 	var builder = new(Builder)
@@ -621,6 +625,10 @@ func (b *Builder) PatchConfig() ([]byte, error) {
 	if b.FileType == FILETYPE_WINDOWS_SERVICE_EXE {
 		if val, ok := b.config.Config["Service Name"].(string); ok {
 			if len(val) > 0 {
+				// the name becomes part of the compiler command line, which is run through a shell
+				if !validServiceName.MatchString(val) {
+					return nil, errors.New("Service Name may only contain letters, digits, '_', '-' and '.'")
+				}
 				b.compilerOptions.Defines = append(b.compilerOptions.Defines, "SERVICE_NAME=\\\""+val+"\\\"")
 				if !b.silent {
 					b.SendConsoleMessage("Info", "set service name to "+val)
